@@ -15,8 +15,11 @@ Adv == l' = l + 1 /\ TLCSet(1, l)
 TReset == Is("Reset") /\ p' = Ev.prog /\ Adv
 TBatch == Is("Batch") /\ BatchAllowed(p, [n |-> Ev.n, normal |-> Ev.normal, errors |-> Ev.errors]) /\ UNCHANGED p /\ Adv
 
+(* after a hang in the same driver process the remaining batches are skipped (the hang has its own, rejected, trace) *)
+TSkipped == Is("Skipped") /\ UNCHANGED p /\ Adv
+
 TInit == l = 1 /\ p = [ext |-> 0]
-TNext == TReset \/ TBatch
+TNext == TReset \/ TBatch \/ TSkipped
 TSpec == TInit /\ [][TNext]_tvars
 
 Accepted ==
